@@ -50,23 +50,24 @@ func SilenceLogs() {
 
 // Options configure one simulation.
 type Options struct {
-	Seed        int64
-	Mode        string // "seq" (friendly, causal, run-to-completion) | "rand" | "lag"
-	MaxInFlight int    // concurrent reconciles (rand/lag)
-	Split       bool   // deliver to cache and notify listeners as separate steps
-	Cron        bool   // run the cron controller (worker ticks + reconciler)
-	CronStep    time.Duration
-	Horizon     time.Duration
-	StepBudget  int
-	Resync      time.Duration // 0: no periodic resync (strict liveness configuration)
-	JobCfg      *configv1alpha1.JobExecutionConfig
-	CronCfg     *configv1alpha1.CronExecutionConfig
-	JCCfg       *configv1alpha1.JobConfigExecutionConfig
-	Faults      FaultPlan
-	Kubelet     KubeletOptions
-	StartOffset time.Duration // virtual time at boot relative to Epoch
-	StoreYield  bool          // make the active-job store's compare-and-add a scheduling point
-	TraceCap    int
+	Seed             int64
+	Mode             string // "seq" (friendly, causal, run-to-completion) | "rand" | "lag"
+	MaxInFlight      int    // concurrent reconciles (rand/lag)
+	Split            bool   // deliver to cache and notify listeners as separate steps
+	Cron             bool   // run the cron controller (worker ticks + reconciler)
+	CronStep         time.Duration
+	Horizon          time.Duration
+	StepBudget       int
+	Resync           time.Duration // 0: no periodic resync (strict liveness configuration)
+	JobCfg           *configv1alpha1.JobExecutionConfig
+	CronCfg          *configv1alpha1.CronExecutionConfig
+	JCCfg            *configv1alpha1.JobConfigExecutionConfig
+	Faults           FaultPlan
+	Kubelet          KubeletOptions
+	StartOffset      time.Duration // virtual time at boot relative to Epoch
+	InvalidPodFaults bool          // the fault plan may answer Pod creates with 422 Invalid (a legitimate source of admission errors)
+	StoreYield       bool          // make the active-job store's compare-and-add a scheduling point
+	TraceCap         int
 }
 
 // FaultPlan decides the fault of each gated controller call.
@@ -287,6 +288,19 @@ func (w *World) Boot() *Incarnation {
 	inc := &Incarnation{N: n, Actor: fmt.Sprintf("ctrl#%d", n), BootAt: w.Clk.Now()}
 	inc.Ctx = NewSimContext(w.API, inc.Actor, w.Cfg)
 	inc.Ctx.CS.Gate = w.gate
+	inc.Ctx.CS.ReadGate = func(kind Kind, ns, name string) error {
+		if rf, ok := w.Opt.Faults.(interface {
+			DecideRead(w *World, kind Kind, name string) error
+		}); ok && w.current != nil {
+			if err := rf.DecideRead(w, kind, name); err != nil {
+				w.traceMu.Lock()
+				w.trace("get %s %s/%s fails: %v (task %d)", kind, ns, name, err, w.current.ID)
+				w.traceMu.Unlock()
+				return err
+			}
+		}
+		return nil
+	}
 	inc.Ctx.Inf.SetOnRead(w.onRead)
 	for _, inf := range inc.Ctx.Inf.All() {
 		inf.Split = false // the initial list is handled atomically; splitting starts afterwards
